@@ -451,6 +451,13 @@ func oneHistory(g *hc.Gen, o *hc.Out, scratch, bin string, h int) {
 				if tr.exists[p] {
 					tr.locked[p] = true
 				}
+			case c < 13 && g.Intn(3) == 0:
+				// CREATE TABLE IF NOT EXISTS: creates the table, or — when it exists — reads it like a plain SELECT
+				// (no lock kept, no reload of a table the transaction has already loaded)
+				line, sql = fmt.Sprintf("c01.createifne %d", p), fmt.Sprintf("CREATE TABLE IF NOT EXISTS `f%d.csv` (v);", p)
+				if !tr.exists[p] {
+					tr.exists[p], tr.created[p], tr.locked[p] = true, true, true
+				}
 			case c < 13:
 				pickFile(false)
 				line, sql = fmt.Sprintf("c01.create %d", p), fmt.Sprintf("CREATE TABLE `f%d.csv` (v);", p)
@@ -638,13 +645,35 @@ func oneHistory(g *hc.Gen, o *hc.Out, scratch, bin string, h int) {
 				text.WriteString("$ sh sig.sh;")
 				how = "interrupt-last"
 			}
+			// the ending statement, sometimes reached through a nested statement list (IF, WHILE, SOURCE, EXECUTE of
+			// a string, PREPARE + EXECUTE): EXIT and a failing statement end the whole run from any depth
+			wrapEnd := func(st string) string {
+				switch g.Intn(7) {
+				case 0:
+					return "IF TRUE THEN " + st + " END IF;"
+				case 1:
+					return "VAR @we := 0; WHILE @we < 3 DO @we := @we + 1; " + st + " END WHILE;"
+				case 2:
+					src := filepath.Join(d2, "srcend.sql")
+					_ = os.WriteFile(src, []byte(st), 0o644)
+					sourced = append(sourced, "srcend.sql")
+					return fmt.Sprintf("SOURCE `%s`;", src)
+				case 3:
+					return "EXECUTE '" + strings.ReplaceAll(strings.TrimSuffix(st, ";"), "'", "\\'") + "';"
+				case 4:
+					return "PREPARE stend FROM '" + strings.ReplaceAll(strings.TrimSuffix(st, ";"), "'", "\\'") + "'; EXECUTE stend;"
+				case 5:
+					return "PREPARE stend FROM 'IF TRUE THEN " + strings.ReplaceAll(st, "'", "\\'") + " END IF'; EXECUTE stend;"
+				}
+				return st
+			}
 			switch how {
 			case "interrupt-in-commit":
 				text.WriteString("COMMIT;")
 			case "error":
-				text.WriteString("SELECT 1 / 0 FROM DUAL;") // (unreached if a statement above already failed)
+				text.WriteString(wrapEnd("SELECT 1 / 0 FROM DUAL;") + " INSERT INTO `f0.csv` VALUES (77); INSERT INTO `f1.csv` VALUES (77);") // (unreached if a statement above already failed)
 			case "exit":
-				text.WriteString("EXIT;")
+				text.WriteString(wrapEnd("EXIT;") + " INSERT INTO `f0.csv` VALUES (78); INSERT INTO `f1.csv` VALUES (78);")
 			}
 			env := os.Environ()
 			// a fourth variant: the signal arrives in the FINALISATION of the final COMMIT (after every table has
